@@ -1,6 +1,7 @@
 """F-Text family, comments part: comment layouts around declarations; serves C19."""
 import os
 
+import fam_sig
 from vlib import Infra, read_ndjson
 
 MC_CFG = "SPECIFICATION Spec\nCONSTANTS\n  Deep = %s\nINVARIANTS A_DetachedIgnored A_MethodTrailingIgnored A_LinesAreDirectives A_Order A_MarkerIsLine\nCHECK_DEADLOCK FALSE\n"
@@ -18,12 +19,20 @@ def check_C19(run):
         if "exported" not in out:
             raise Infra("export failed:\n" + out[-3000:])
     obs = os.path.join(run.scratch, "cobs.ndjson")
-    summ = run.harness(["comments", "-scen", scen, "-obs", obs, "-work", os.path.join(run.scratch, "wc")], timeout=3600)
-    run.fam = "comments"
-    run.scen_files["comments"] = scen
-    run.validate_obs("Obs_Comments", obs)
+    summ = {}
+    if os.path.exists(scen):
+        summ = run.harness(["comments", "-scen", scen, "-obs", obs, "-work", os.path.join(run.scratch, "wc")], timeout=3600)
+        run.fam = "comments"
+        run.scen_files["comments"] = scen
+        run.validate_obs("Obs_Comments", obs)
+    # doc comments of custom functions (read by pkgload, not by comments.ParseDocs): the signature family carries the
+    # `goverter:context` line in several layouts and in two same-named packages; Obs_Signature attributes a misread line to C19
+    ssumm, sobs = fam_sig.pipeline(run)
     kinds = set()
-    for r in read_ndjson(obs):
+    for r in (read_ndjson(sobs) if sobs else []):
+        if r["use"] == "extend":
+            kinds.add(("custom-function", r["layout"], r["place"], tuple(r["params"]), r["gen"]))
+    for r in (read_ndjson(obs) if os.path.exists(obs) else []):
         k = (r["kind"], r["attach"], tuple(r["group"]), tuple(r["mgroup"]), r["outcome"], len(r["found"]))
         if len(run.samples) < 5 and r["attach"] == "doc" and len(r["group"]) > 1 and r["kind"] not in [s["kind"] for s in run.samples]:
             run.samples.append({k2: r[k2] for k2 in ("kind", "attach", "group", "mgroup", "outcome", "found")})
@@ -32,7 +41,8 @@ def check_C19(run):
                        "ASCII comment text only (no Unicode case folding is involved in comment handling)"]
     return run.finish("every layout of 9 declaration kinds x 4 attachments (doc, detached by a blank line, trailing, inside the body) x comment groups of 1-2 (thorough: 3) items over "
                       "11 marker spellings and 8-15 comment item shapes (line/block comments, directive style, tabs, trailing blanks, prose containing the marker), plus 61 method/variable doc groups; "
-                      "distinct = distinct (layout, outcome)", summ.get("scenarios", 0), len(kinds))
+                      "custom functions: the context line of the doc comment in 7 layouts (4 settings, 3 non-settings) and in two packages sharing a package name, judged by the generation outcome; "
+                      "distinct = distinct (layout, outcome)", summ.get("scenarios", 0) + ssumm.get("scenarios", 0), len(kinds))
 
 
 CHECKS = {"C19": check_C19}
